@@ -177,6 +177,34 @@ pub fn to_ipp_via_add(m: &Model, salt: u64) -> IppRequestResponse {
     r
 }
 
+/// built by additions, then completed through the maps: for each group a prefix of its attributes goes in through
+/// IppAttributes::add (with replaced decoys), the rest is inserted afterwards through groups_mut()/attributes_mut()
+/// (the two public ways of filling a group must compose)
+pub fn to_ipp_mixed(m: &Model, salt: u64) -> IppRequestResponse {
+    let mut part = m.clone();
+    let mut rest: Vec<Vec<(String, MVal)>> = vec![];
+    let mut x = salt | 1;
+    for g in part.groups.iter_mut() {
+        x = x.wrapping_mul(6364136223846793005).wrapping_add(1442695040888963407);
+        let keep = 1 + (x >> 33) as usize % g.attrs.len().max(1);
+        let names: Vec<String> = g.attrs.keys().cloned().collect();
+        let mut moved = vec![];
+        for n in names.into_iter().skip(keep) {
+            if let Some(v) = g.attrs.remove(&n) {
+                moved.push((n, v));
+            }
+        }
+        rest.push(moved);
+    }
+    let mut r = to_ipp_via_add(&part, salt);
+    for (gi, moved) in rest.into_iter().enumerate() {
+        for (k, v) in moved {
+            r.attributes_mut().groups_mut()[gi].attributes_mut().insert(k.clone(), IppAttribute::new(&k, to_ipp_value(&v)));
+        }
+    }
+    r
+}
+
 pub fn to_ipp(m: &Model) -> IppRequestResponse {
     let mut r = IppRequestResponse::new_response(IppVersion(m.version), StatusCode::SuccessfulOk, m.id);
     r.header_mut().operation_or_status = m.code;
